@@ -20,6 +20,9 @@ inductive Op
   | in_op | not_in_op
   | and_ | or_ | inv | is_true | is_false
   | comma_op | asbool_
+  | contains_op | not_contains_op | startswith_op | not_startswith_op
+  | endswith_op | not_endswith_op | icontains_op | not_icontains_op
+  | istartswith_op | not_istartswith_op | iendswith_op | not_iendswith_op
   deriving DecidableEq, Repr, Inhabited
 
 namespace Op
@@ -28,7 +31,9 @@ def all : List Op :=
   [add, sub, mul, truediv, floordiv, mod, neg, concat_op, eq, ne, lt, le, gt, ge,
    is_, is_not, is_distinct_from, is_not_distinct_from, like_op, not_like_op, ilike_op,
    not_ilike_op, between_op, not_between_op, in_op, not_in_op, and_, or_, inv, is_true,
-   is_false, comma_op, asbool_]
+   is_false, comma_op, asbool_, contains_op, not_contains_op, startswith_op, not_startswith_op,
+   endswith_op, not_endswith_op, icontains_op, not_icontains_op, istartswith_op,
+   not_istartswith_op, iendswith_op, not_iendswith_op]
 
 /-- Python name in `sqlalchemy.sql.operators` -/
 def name : Op → String
@@ -42,6 +47,12 @@ def name : Op → String
   | not_between_op => "not_between_op" | in_op => "in_op" | not_in_op => "not_in_op"
   | and_ => "and_" | or_ => "or_" | inv => "inv" | is_true => "is_true"
   | is_false => "is_false" | comma_op => "comma_op" | asbool_ => "_asbool"
+  | contains_op => "contains_op" | not_contains_op => "not_contains_op"
+  | startswith_op => "startswith_op" | not_startswith_op => "not_startswith_op"
+  | endswith_op => "endswith_op" | not_endswith_op => "not_endswith_op"
+  | icontains_op => "icontains_op" | not_icontains_op => "not_icontains_op"
+  | istartswith_op => "istartswith_op" | not_istartswith_op => "not_istartswith_op"
+  | iendswith_op => "iendswith_op" | not_iendswith_op => "not_iendswith_op"
 
 theorem mem_all (o : Op) : o ∈ all := by cases o <;> decide
 
